@@ -1,4 +1,4 @@
-\* one channel, logs / key sets <= 3, every instance and every stream variant, 3 attempts: measured below
+\* one channel, logs / key sets <= 3, every instance and every stream variant, 3 attempts: 188,901 distinct / 1,771,497 generated states, ~1 min with 4 workers
 SPECIFICATION Spec
 CONSTANTS
   ChanSeq <- MCChanSeq1
